@@ -514,16 +514,14 @@ class RefModule:
         # Through a view: the trainables *in view* are removed.  Asserted only where that is well defined in the library:
         # channel and synapse parameters (the view filter of the library ignores every other key), and parameter groups
         # that lie entirely inside or entirely outside the view.
-        chan_params = set(k for c in self.chans.values() for k in c["params"])
-        syn_params = set(k for s_ in self.syns for k in s_["params"])
         new = []
         for t in self.trainables:
-            if t["key"] in chan_params:
-                inview = set(rv.N)
-            elif t["key"] in syn_params:
-                inview = set(rv.E)
+            if t["key"] in self.cols:
+                inview = set(rv.N)      # compartment parameters and states (radius, v, channel parameters, gates)
+            elif t["key"] in self.edge_columns():
+                inview = set(rv.E)      # synaptic parameters and states
             else:
-                raise Unspec("view-level delete_trainables with a trainable that is neither a channel nor a synapse parameter")
+                raise Unspec("view-level delete_trainables with a trainable of an unknown column")
             groups, vals = [], []
             for g, v in zip(t["groups"], t["vals"]):
                 n_in = sum(1 for r_ in g if r_ in inview)
